@@ -773,10 +773,12 @@ def arithLvalue (x : AExpr) : Res (Option Bytes) :=
   if name = [] then .ok none else .ok (some name)
 
 /-- `varInd` / `assignElem` / `assignVal` on an associative array with a subscript that is not
-    `@`/`*`: `idx.(*syntax.Word)`. -/
-def assocIndex (idx : AExpr) : Res Unit :=
+    `@`/`*`: `word, ok := idx.(*syntax.Word)`; a subscript the parser read as arithmetic (or a
+    missing one, as in `declare -A m=(a b c)`) is the error "unsupported associative array
+    subscript" (`false`), never a failed assertion (fix 443024b). -/
+def assocIndex (idx : AExpr) : Res Bool :=
   match idx with
-  | .word _ => .ok ()
-  | _ => .panic
+  | .word _ => .ok true
+  | _ => .ok false
 
 end ShVerif.C28
